@@ -323,7 +323,20 @@ def p3_publish_after_append(ctx):
                         if labs == ["Some"] or labs == ["None"]:
                             want = 1 if labs == ["Some"] else 0
                             rs = [(c, ret_origin(b, d)) for c, d, rb in ret_classes(b, e.dst, lambda x: x.kind == "unwind")]
-                            good = bool(rs) and all(c == "ok" and const_int(list(peel_var(o2)[4].values())[0]) == want for c, o2 in rs if o2 is not None and peel_var(o2)[0] == "agg")
+                            def payload_ok(o2):
+                                pv = list(peel_var(o2)[4].values())[0]
+                                if const_int(pv) == want:
+                                    return True
+                                # `Ok(removed.is_some())` / `Ok(!removed.is_none())`: the same answer on both edges
+                                q = peel_var(pv)
+                                ng = False
+                                while q[0] == "un" and q[1] == "Not":
+                                    q, ng = peel_var(q[2]), not ng
+                                if q[0] == "call" and q[1] and q[1].split("::")[-1] in ("is_some", "is_none") and q[2] and origin_mentions(q[2][0], lambda y: y[0] == "call" and y[3] == (b.path, rbb)):
+                                    return (q[1].split("::")[-1] == "is_some") != ng
+                                return False
+
+                            good = bool(rs) and all(c == "ok" and payload_ok(o2) for c, o2 in rs if o2 is not None and peel_var(o2)[0] == "agg")
                             r.add(f, "remove found %s ⇒ Ok(%s)" % (labs[0], "true" if want else "false"), good, where(b, bb))
         if not found:
             r.unrec(f, "result derived from keydir.remove's Option", where(b, rbb), "no switch on the remove result")
@@ -461,22 +474,27 @@ def p14_rollover_test(ctx):
         s = origin_str(o)
         return "written_bytes" in s and "max_file_size" in s
 
+    rets_w = {x for x in b.live_blocks() if b.term(x)["k"] == "return"}
     if len(apps) != 1:
         r.unrec(f, "append ×%d" % len(apps), short_span(b.span), "expected one")
     else:
         abb, at = apps[0]
         ok_e, _, _ = try_edges(b, abb)
         tests = set()
+        roll_val = {}
         for bb in b.live_blocks():
             info = b.switch_info(bb)
             if info and info["kind"] == "bool" and is_limit_test(info["on"]):
-                # true edge reaches a rollover without passing another test
+                # the edge that reaches a rollover while the other one does not
+                hits = {}
                 for e in b.succ[bb]:
-                    if info["arms"].get(e.dst) == [True]:
-                        reg = reach(b, [e.dst], blocked_edges=lambda x: x.kind == "unwind")
-                        if reg & rolls:
-                            o = peel_var(info["on"])
-                            tests.add(bb)
+                    lab = info["arms"].get(e.dst)
+                    if lab in ([True], [False]):
+                        reg = reach(b, [e.dst], blocked_edges=lambda x: x.kind == "unwind", blocked_blocks=rets_w)
+                        hits[lab[0]] = bool(reg & rolls)
+                if sorted(hits.values()) == [False, True]:
+                    tests.add(bb)
+                    roll_val[bb] = [k for k, v_ in hits.items() if v_][0]
         starts = [e.dst for e in (ok_e or [])]
         classes = set()
         for s in starts:
@@ -497,14 +515,18 @@ def p14_rollover_test(ctx):
         # the comparison must be strict-greater or greater-equal on (written, max) — normalised
         for t in tests:
             o = peel_var(b.switch_info(t)["on"])
+            ng = False
+            while o[0] == "un" and o[1] == "Not":
+                o, ng = peel_var(o[2]), not ng
             if o[0] == "bin":
                 l, rr = origin_str(o[2]), origin_str(o[3])
-                dirn = None
-                if "written_bytes" in l and "max_file_size" in rr:
-                    dirn = {"Gt": "ok", "Ge": "ok"}.get(o[1])
-                elif "max_file_size" in l and "written_bytes" in rr:
-                    dirn = {"Lt": "ok", "Le": "ok"}.get(o[1])
-                r.add(f, "rollover when written_bytes exceeds max_file_size (not the reverse)", dirn == "ok", where(b, t), "%s %s %s" % (l, o[1], rr))
+                op = o[1]
+                if "max_file_size" in l and "written_bytes" in rr:
+                    op = {"Lt": "Gt", "Le": "Ge", "Gt": "Lt", "Ge": "Le"}.get(op, op)  # now: written OP max
+                holds = roll_val.get(t, True) != ng  # value of the comparison on the rollover edge
+                if not holds:
+                    op = {"Lt": "Ge", "Le": "Gt", "Gt": "Le", "Ge": "Lt"}.get(op, op)
+                r.add(f, "rollover when written_bytes exceeds max_file_size (not the reverse)", op in ("Gt", "Ge"), where(b, t), "on the rollover edge: written_bytes %s max_file_size" % op)
     # rollover resets the byte counter
     nb = prog.one("storage::bitcask::Writer::new_active_datafile")
     z = False
@@ -527,26 +549,44 @@ def p6_reader_pool(ctx):
     f = fam_name(b)
     r.analysed.append(b.path)
     pops = [(bb, t) for _, bb, t in calls_in([b], "crossbeam_queue::ArrayQueue::pop", "ArrayQueue::pop")]
-    if len(pops) != 1:
-        r.unrec(f, "ArrayQueue::pop ×%d" % len(pops), short_span(b.span), "expected one")
+    if not pops:
+        r.unrec(f, "ArrayQueue::pop", short_span(b.span), "no pop found")
         return r
     pbb, pt = pops[0]
     pool = arg_path(b, pt, 0)
-    some_edges = set()
+    pop_sites = {(b.path, bb) for bb, t in pops if arg_path(b, t, 0) == pool}
+    pop_blocks = {bb for bb, t in pops if arg_path(b, t, 0) == pool}
+
+    def from_pop(o):
+        return bool(phi_mentions(b, o, lambda x: x[0] == "call" and x[3] in pop_sites))
+
+    # edges on which the popped value is known to be a reader / known to be nothing
+    some_edges, none_edges = set(), set()
     for bb in b.live_blocks():
         info = b.switch_info(bb)
-        if info and info["kind"] == "variant":
+        if not info:
+            continue
+        if info["kind"] == "variant" and set(sum(info["arms"].values(), [])) >= {"Some", "None"} and from_pop(info["on"]):
+            for e in b.succ[bb]:
+                if info["arms"].get(e.dst) == ["Some"]:
+                    some_edges.add((e.src, e.dst))
+                elif info["arms"].get(e.dst) == ["None"]:
+                    none_edges.add((e.src, e.dst))
+        elif info["kind"] == "bool":
             o = peel_var(info["on"])
-            if o[0] == "call" and o[3] == (b.path, pbb):
+            neg = False
+            while o[0] == "un" and o[1] == "Not":
+                o, neg = peel_var(o[2]), not neg
+            if o[0] == "call" and o[1] and o[1].split("::")[-1] in ("is_some", "is_none") and "Option" in o[1] and o[2] and from_pop(o[2][0]):
+                some_when = (o[1].split("::")[-1] == "is_some") != neg
                 for e in b.succ[bb]:
-                    if info["arms"].get(e.dst) == ["Some"]:
+                    if info["arms"].get(e.dst) == [some_when]:
                         some_edges.add((e.src, e.dst))
+                    elif info["arms"].get(e.dst) == [not some_when]:
+                        none_edges.add((e.src, e.dst))
     if not some_edges:
         r.unrec(f, "Some edge of pop()", where(b, pbb), "not found")
         return r
-
-    def from_pop(o):
-        return bool(origin_mentions(o, lambda x: x[0] == "call" and x[3] == (b.path, pbb)))
 
     # guard types: crate ADTs with a Drop impl that pushes to an ArrayQueue
     guard_types = {}
@@ -573,11 +613,17 @@ def p6_reader_pool(ctx):
             if any(strip_generics(d).split("<")[0] in guard_types for d in t["dtors"][:1]) or strip_generics(t["ty"]).split("<")[0] in guard_types:
                 guard_drops.add(bb)
 
-    # states: 0 none, 1 raw reader held, 2 reader in guard, 3 returned
+    # states: 0 none, 1 raw reader held, 2 reader in guard, 3 returned, 4 popped, not yet known whether a reader came out
     def events(bb, e):
         out = []
+        if e is not None and bb in pop_blocks and e.kind == "ret":
+            out.append("pop")
+        if e is not None and e.kind == "unwind" and b.term(bb)["k"] == "drop" and "storage::bitcask::Reader" in b.term(bb)["ty"] and b.term(bb)["ty"].startswith(("std::option::Option<", "core::option::Option<")):
+            out.append("optdrop-unwinds")
         if e is not None and (e.src, e.dst) in some_edges:
             out.append("got")
+        if e is not None and (e.src, e.dst) in none_edges:
+            out.append("none")
         if bb in guard_aggs:
             out.append("guard")
         if e is not None and bb in push_ok and e.kind == "ret":
@@ -587,18 +633,28 @@ def p6_reader_pool(ctx):
         return out
 
     def delta(s, ev):
-        if ev == "got":
+        # 6 = popped again while the variable that receives the result is known to hold None (or
+        # nothing yet): replacing it runs no destructor, so that drop cannot unwind (7 = infeasible)
+        if ev == "pop" and s == 0:
+            return 6
+        if ev == "pop" and s in (4, 6):
+            return 4
+        if ev == "optdrop-unwinds" and s == 6:
+            return 7
+        if ev == "got" and s in (0, 4, 6):
             return 1
-        if ev == "guard" and s == 1:
+        if ev == "none" and s in (4, 6):
+            return 0
+        if ev == "guard" and s in (1, 4, 6):
             return 2
-        if ev == "push" and s == 1:
+        if ev == "push" and s in (1, 4, 6):
             return 3
         if ev == "gdrop" and s == 2:
             return 3
         return s
 
     def on_exit(s, kind, rc, bb):
-        if s == 1:
+        if s in (1, 4, 6):
             return "exit by %s while the popped reader is held and was not pushed back: the pool has one reader less forever" % ("panic (unwinding)" if kind == "resume" else kind)
         if s == 2:
             return "exit by %s while the guard owning the reader is still alive (leaked)" % kind
@@ -608,7 +664,7 @@ def p6_reader_pool(ctx):
     def events_ordered(bb, e):
         ev = events(bb, e)
         # an edge event 'got' belongs to the edge (after the block), so put it last
-        ev.sort(key=lambda x: {"guard": 0, "push": 1, "gdrop": 1, "got": 2}[x])
+        ev.sort(key=lambda x: {"guard": 0, "push": 1, "gdrop": 1, "optdrop-unwinds": 1, "pop": 2, "got": 3, "none": 3}[x])
         return ev
 
     vs = explore(b, 0, events_ordered, delta, on_exit, follow=real_unwind(b))
